@@ -11,7 +11,7 @@ import json, os, subprocess, sys, xml.etree.ElementTree as ET, tempfile
 pid, k = sys.argv[1], sys.argv[2]
 run_tests = "--tests" in sys.argv
 wt = f"/tmp/wt/{pid}"
-out = f"/tmp/seed_out/{pid}"
+out = (sys.argv[sys.argv.index("--src") + 1] if "--src" in sys.argv else "/tmp/seed_out") + f"/{pid}"
 env = dict(os.environ, PYTHONPATH=f"{wt}/src")
 def sh(cmd, **kw):
     return subprocess.run(cmd, shell=True, capture_output=True, text=True, **kw)
